@@ -450,7 +450,10 @@ def r6(ctx):
         n = 0
         bad = None
         for o in outs:
-            if o.kind != "raise" or not any(e.name == "enter:_abnf:ABNF.validate" for e in o.effects):
+            # a rejecting path: the frame (or already its header) was read and then refused with a protocol / payload error -- whether the
+            # refusal comes from validate(), a helper it was split into, or a fail-fast check on the header alone
+            refused = o.kind == "raise" and (exc_is(I, o, "_exceptions:WebSocketProtocolException") or exc_is(I, o, "_exceptions:WebSocketPayloadException"))
+            if not refused or not any(e.name == "recv_strict" and e.ret is not None for e in o.effects):
                 continue
             n += 1
             ws = next((c for c in o.run.heap.values() if getattr(c, "cls", None) == "_core:WebSocket"), None)
